@@ -32,17 +32,7 @@ def _grid(rng, nx, span, irregular):
     return x + rng.choice([0.0, 0.0, 2.5, -1.0])
 
 
-def make_case(rng, double=False, nx=None, nt=None, span=None, n_baths=None, n_stretch=None, nta=0, n_match=0,
-              noise=None, var_kind=None, irregular=None, shuffle=True, j_config=None):
-    """returns a Case with .ds, .sections [(key, [(a, b), ...])], .trans_att, .matching [(hs, ts, rev)], .truth, .var_args"""
-    c = Case()
-    nx = nx or rng.randint(12, 40)
-    nt = nt or rng.randint(1, 6)
-    span = span or rng.choice([10.0, 50.0, 100.0, 400.0, 2000.0, 10000.0])
-    irregular = rng.random() < 0.3 if irregular is None else irregular
-    x = _grid(rng, nx, span, irregular)
-    n_baths = n_baths or rng.randint(1, 3)
-    n_stretch = max(n_baths, n_stretch or rng.randint(n_baths, min(2 * n_baths + 1, 5)))
+def _random_blocks(rng, nx, n_stretch, n_match):
     nseg = n_stretch + n_match * 2
     # --- partition the index range into gaps and blocks: choose 2*nseg distinct cut points, blocks never touch
     for _try in range(200):
@@ -59,9 +49,10 @@ def make_case(rng, double=False, nx=None, nt=None, span=None, n_baths=None, n_st
     order = list(range(nseg))
     rng.shuffle(order)
     match_blocks = []
-    ref_blocks = []
     used = set()
     for m in range(n_match):
+        if 2 * m + 1 >= len(order):
+            break
         a, b = order[2 * m], order[2 * m + 1]
         la = blocks[a][1] - blocks[a][0]
         lb = blocks[b][1] - blocks[b][0]
@@ -73,6 +64,28 @@ def make_case(rng, double=False, nx=None, nt=None, span=None, n_baths=None, n_st
     ref_blocks = [blocks[k] for k in range(nseg) if k not in used]
     if not ref_blocks:
         ref_blocks = [blocks[0]]
+    return ref_blocks, match_blocks
+
+
+def make_case(rng, double=False, nx=None, nt=None, span=None, n_baths=None, n_stretch=None, nta=0, n_match=0,
+              noise=None, var_kind=None, irregular=None, shuffle=True, j_config=None, layout=None):
+    """returns a Case with .ds, .sections [(key, [(a, b), ...])], .trans_att, .matching [(hs, ts, rev)], .truth, .var_args"""
+    c = Case()
+    nx = nx or rng.randint(12, 40)
+    nt = nt or rng.randint(1, 6)
+    span = span or rng.choice([10.0, 50.0, 100.0, 400.0, 2000.0, 10000.0])
+    irregular = rng.random() < 0.3 if irregular is None else irregular
+    x = _grid(rng, nx, span, irregular)
+    n_baths = n_baths or rng.randint(1, 3)
+    n_stretch = max(n_baths, n_stretch or rng.randint(n_baths, min(2 * n_baths + 1, 5)))
+    nseg = n_stretch + n_match * 2
+    if layout is not None:
+        # explicit layout: ref_blocks [(i0, i1, bath)], match_blocks [((h0, h1), (t0, t1))], trans positions
+        ref_blocks = [(a, b) for a, b, _ in layout["ref_blocks"]]
+        match_blocks = list(layout.get("match_blocks", []))
+        n_baths = 1 + max(k for _, _, k in layout["ref_blocks"])
+    else:
+        ref_blocks, match_blocks = _random_blocks(rng, nx, n_stretch, n_match)
     n_baths = min(n_baths, len(ref_blocks))
     keys = [f"bath{k}" for k in range(n_baths)]
 
@@ -81,8 +94,11 @@ def make_case(rng, double=False, nx=None, nt=None, span=None, n_baths=None, n_st
         hi = x[i1] + (x[i1 + 1] - x[i1]) * rng.choice([0, 0, 0.25, 0.4]) if i1 < nx - 1 else x[i1] + rng.choice([0, 0.5])
         return float(lo), float(hi)
 
-    assign = list(range(n_baths)) + [rng.randrange(n_baths) for _ in range(len(ref_blocks) - n_baths)]
-    rng.shuffle(assign)
+    if layout is not None:
+        assign = [k for _, _, k in layout["ref_blocks"]]
+    else:
+        assign = list(range(n_baths)) + [rng.randrange(n_baths) for _ in range(len(ref_blocks) - n_baths)]
+        rng.shuffle(assign)
     secs = {k: [] for k in keys}
     bath_of_loc = {}
     for (i0, i1), b in zip(ref_blocks, assign):
@@ -122,6 +138,10 @@ def make_case(rng, double=False, nx=None, nt=None, span=None, n_baths=None, n_st
     # --- splices: in gaps between blocks, on or between grid points
     gaps = [i for i in range(2, nx - 2) if i not in bath_of_loc and (i - 1) not in bath_of_loc]
     trans = []
+    if layout is not None:
+        trans = [float(v) for v in layout.get("trans", [])]
+        trans += [float(x[i]) if on_grid else float(x[i] - 0.5 * (x[i] - x[i - 1])) for i, on_grid in layout.get("trans_idx", [])]
+        nta = 0
     for _ in range(nta):
         if not gaps:
             break
